@@ -61,12 +61,7 @@ def _capacitance(repo, col):
             d = n
     if d is None:
         raise AnalysisError("Module.step: solver_kwargs dict display not found")
-    for k, v in zip(d.keys, d.values):
-        if isinstance(k, ast.Constant) and k.value in ("voltage_terms", "constant_terms"):
-            t = ex.term(v)
-            ok = t.op == "binop" and t.name == "/" and t.args[1].op == "sub" and \
-                t.args[1].args[1].op == "const" and t.args[1].args[1].name == "capacitance" and \
-                t.args[1].args[0].op == "param"
-            col.check(ok, "R-C15-units", fi, f"{k.value} / capacitance",
-                      "(uA/cm^2)/(uF/cm^2) = mV/ms: every current term is divided by the capacitance, factor 1",
-                      f"{k.value} is {t.short()}: not `(sum of current terms) / params['capacitance']`", node=v)
+    from . import c01_solver, idx
+    ex = idx.expander(repo, fi)
+    kw = {k.value: ex.term(v) for k, v in zip(d.keys, d.values) if isinstance(k, ast.Constant)}
+    c01_solver.current_terms(repo, col, "R-C15-units", fi, ex, kw, d)
